@@ -276,3 +276,37 @@ pub fn start_watchdog() {
         })
         .expect("spawn watchdog");
 }
+
+
+/// A logger that formats every record it is handed and throws the text away. It is registered once
+/// per process with the maximum level `Off`; a case that wants raindb's logging to be *evaluated*
+/// (an application with a logger at Info) switches the level for its duration.
+struct EvaluatingLogger;
+
+static LOG_BYTES: AtomicU64 = AtomicU64::new(0);
+
+impl log::Log for EvaluatingLogger {
+    fn enabled(&self, metadata: &log::Metadata) -> bool {
+        metadata.level() <= log::max_level()
+    }
+    fn log(&self, record: &log::Record) {
+        if self.enabled(record.metadata()) {
+            let text = format!("{}", record.args());
+            LOG_BYTES.fetch_add(text.len() as u64, Ordering::Relaxed);
+        }
+    }
+    fn flush(&self) {}
+}
+
+pub fn install_evaluating_logger() {
+    static LOGGER: EvaluatingLogger = EvaluatingLogger;
+    if log::set_logger(&LOGGER).is_ok() {
+        log::set_max_level(log::LevelFilter::Off);
+    }
+}
+
+/// Evaluate raindb's log records up to `level` (Off = none); returns the bytes formatted so far.
+pub fn set_log_evaluation(level: log::LevelFilter) -> u64 {
+    log::set_max_level(level);
+    LOG_BYTES.load(Ordering::Relaxed)
+}
